@@ -86,6 +86,11 @@ def gen(rng, cid, plugin):
         # make the growth phase decisive and put observed growth ratios on both sides of a fractional threshold
         args.update({"size_threshold": "100", "growing_size_percentile": rng.choice(["0", "20"]),
                      "min_growth_ratio": rng.choice(["1.5", "2.5", "2.75", "0.5", "3.1"])})
+    if plugin in ("kill_by_memory_size_or_growth", "kill_by_pressure") and rng.random() < 0.3:
+        # the same siblings reached by descending from their parent: every level is ranked among its own siblings, with cut-offs
+        # computed from those siblings
+        args["cgroup"] = "wl"
+        args["recursive"] = "true"
     boundary = growth_focus and rng.random() < 0.5
     if boundary:
         # put one sibling's usage / moving average EXACTLY on a non-dyadic configured ratio at tick 1:
@@ -205,6 +210,8 @@ def judge(case, results):
             strict += 1
     v.count("strict_argmax_invocations", strict)
     v.count("plugin:" + plugin)
+    if args.get("recursive"):
+        v.count("reached_by_descent_cases")
     if case.meta.get("gap"):
         v.count("sampling_gap_cases")
     v.nontrivial = strict > 0
